@@ -157,16 +157,16 @@ def check_canonical(mps, tag, cap=None):
         if i < c:
             m = a.reshape(-1, a.shape[2])
             g = m.conj().T @ m
-            if np.abs(g - np.eye(g.shape[0])).max() > 1e-10:
+            if not np.abs(g - np.eye(g.shape[0])).max() <= 1e-10:  # NaN fails
                 return f"{tag}: tensor {i} left of the declared centre {c} is not left-orthonormal (dev {np.abs(g - np.eye(g.shape[0])).max():.2e})"
         elif i > c:
             m = a.reshape(a.shape[0], -1)
             g = m @ m.conj().T
-            if np.abs(g - np.eye(g.shape[0])).max() > 1e-10:
+            if not np.abs(g - np.eye(g.shape[0])).max() <= 1e-10:  # NaN fails
                 return f"{tag}: tensor {i} right of the declared centre {c} is not right-orthonormal (dev {np.abs(g - np.eye(g.shape[0])).max():.2e})"
     nd = np.linalg.norm(dense(mps))
     nc = float(mps.factors[c].norm())
-    if abs(nd - nc) > 1e-10 * max(1.0, nd):
+    if not abs(nd - nc) <= 1e-10 * max(1.0, nd):  # NaN fails
         return f"{tag}: norm of the centre tensor {nc} != norm of the state {nd}"
     return None
 
@@ -291,7 +291,7 @@ def run_history(n, dim, init, precision, cap, history, seed, mode, cache):
             new_v = v
             if mode == "C11":
                 ref = entropy_dense(dense(obj), n, dim, b)
-                if abs(got - ref) > 1e-9 * max(1.0, abs(ref)):
+                if not abs(got - ref) <= 1e-9 * max(1.0, abs(ref)):  # written so that a NaN fails
                     raise Violation("entanglement_entropy", f"entanglement_entropy({b}) = {got} but dense value {ref}")
         elif op == "corr":
             got = obj.get_correlation_matrix().numpy().real
@@ -300,7 +300,7 @@ def run_history(n, dim, init, precision, cap, history, seed, mode, cache):
                 vv = dense(obj)
                 ns = [opm(N2, i) for i in range(n)]
                 ref = np.array([[np.vdot(vv, ns[i] @ ns[j] @ vv).real for j in range(n)] for i in range(n)])
-                if np.abs(got - ref).max() > 1e-10 * scale**2:
+                if not np.abs(got - ref).max() <= 1e-10 * scale**2:  # NaN fails
                     raise Violation("get_correlation_matrix", f"correlation matrix {got.tolist()} != dense {ref.tolist()}")
         elif op == "expect_batch":
             ops2 = [N2, X2, SM2]
@@ -309,13 +309,13 @@ def run_history(n, dim, init, precision, cap, history, seed, mode, cache):
             if mode == "C11":
                 vv = dense(obj)
                 ref = np.array([[np.vdot(vv, opm(o, q) @ vv) for o in ops2] for q in range(n)])
-                if np.abs(got - ref).max() > 1e-10 * scale**2:
+                if not np.abs(got - ref).max() <= 1e-10 * scale**2:  # NaN fails
                     raise Violation("expect_batch", f"expect_batch {got.tolist()} != dense {ref.tolist()}")
         elif op == "norm":
             got = float(obj.norm())
             new_v = v
             ref = np.linalg.norm(dense(obj))
-            if abs(got - ref) > 1e-10 * scale:
+            if not abs(got - ref) <= 1e-10 * scale:  # NaN fails
                 raise Violation("norm", f"norm() = {got} but the state has norm {ref} (declared centre {obj.orthogonality_center})")
         elif op == "inner":
             got = complex(obj.inner(other))
@@ -323,12 +323,12 @@ def run_history(n, dim, init, precision, cap, history, seed, mode, cache):
             new_v = v
             if mode == "C11":
                 vv, ww = dense(obj), dense(other)
-                if abs(got - np.vdot(vv, ww)) > 1e-10 * scale * max(1.0, np.linalg.norm(ww)):
+                if not abs(got - np.vdot(vv, ww)) <= 1e-10 * scale * max(1.0, np.linalg.norm(ww)):  # NaN fails
                     raise Violation("inner", f"inner = {got} but dense {np.vdot(vv, ww)}")
-                if abs(float(obj.overlap(other)) - abs(np.vdot(vv, ww)) ** 2) > 1e-10 * scale**2 * max(1.0, np.linalg.norm(ww)) ** 2:
+                if not abs(float(obj.overlap(other)) - abs(np.vdot(vv, ww)) ** 2) <= 1e-10 * scale**2 * max(1.0, np.linalg.norm(ww)) ** 2:  # NaN fails
                     raise Violation("overlap", "overlap != |<a|b>|^2")
                 ref2 = np.vdot(vv, Hd @ vv)
-                if abs(got2 - ref2) > 1e-9 * scale**2 * max(1.0, np.linalg.norm(Hd, 2)):
+                if not abs(got2 - ref2) <= 1e-9 * scale**2 * max(1.0, np.linalg.norm(Hd, 2)):  # NaN fails
                     raise Violation("MPO.expect", f"MPO.expect = {got2} but dense {ref2}")
         else:
             raise ValueError(op)
